@@ -1,10 +1,13 @@
 (* C03 — Clean shutdown drains the whole pipeline and orders node lifecycles.
    Proofs in Proofs/ExecLife.v (invariant over every schedule), ExecLink.v, ExecSpec.v, ExecTerminal.v.
-   Liveness (that a clean run DOES end when nodes finish) is not proved: see DESIGN.md; the correspondence
-   runs observe termination on every generated scenario. *)
+   Liveness is proved as deadlock freedom and bounded termination of the shutdown cascade
+   (Proofs/ExecProgress*.v): from every reachable state after the source stopped, every maximal run of framework
+   steps in which the nodes return from their calls ends in the clean return of Execute, within M s steps. *)
 From Coq Require Import List ZArith Bool Arith.
 From FB Require Import Model.Exec Model.TraceSpec Model.ExecInv.
-From FB Require Proofs.ExecLife Proofs.ExecProps Proofs.ExecSpec Proofs.ExecTerminal.
+From FB Require Import Model.Settle.
+From FB Require Proofs.ExecLife Proofs.ExecProps Proofs.ExecSpec Proofs.ExecTerminal Proofs.ExecProgress Proofs.ExecProgress2
+                Proofs.ExecProgress3 Proofs.ExecProgressFlat2.
 Import ListNotations.
 
 (* no interleaving makes the framework panic: no send on a closed channel, no double close *)
@@ -65,6 +68,42 @@ Theorem C03_spec_sound : forall nt T s, wf_net nt = true -> forallb (fun x => Na
   reachable nt T s -> trace_ok nt (tr s) = [].
 Proof. exact ExecSpec.trace_ok_reachable. Qed.
 
+
+(* ---- liveness: the cascade cannot get stuck, and cannot run forever ----
+   [finishing] actions = every framework step plus nodes returning from their current calls / calling back (with
+   the 'filtered' outcome) and returning from Shutdown; no source activity, no clock.
+   [live_net] = well-formed, every node >= 1 worker, children numbered after parents, every node fed by a root
+   or a parent, every buffer >= 1 or discarding — proved of every [flatten] output with workers >= 1 and
+   buffersize >= 1 (C03_every_started_table_is_live); each extra hypothesis is necessary (counterexamples
+   fed_needed / topo_needed / buffered_needed in Proofs/ExecProgress2.v). *)
+Theorem C03_can_always_finish : forall nt T s,
+  ExecProgress.live_net nt -> reachable nt T s -> src s = SClosed -> timedout s = false ->
+  exists sch s', forallb ExecProgress.finishing sch = true /\ run nt T s sch = Ok s' /\ mn s' = MDone /\ timedout s' = false.
+Proof. exact ExecProgress2.can_always_finish. Qed.
+
+(* whatever enabled framework step the scheduler picks: no finishing run is longer than the measure M s, and a
+   finishing run that cannot be extended has reached the clean end (with C03_clean_end_is_drained: everything
+   emitted was fully processed, nothing left in any buffer) *)
+Theorem C03_every_run_ends_clean : forall nt T s sch s1,
+  ExecProgress.live_net nt -> reachable nt T s -> src s = SClosed -> timedout s = false ->
+  forallb ExecProgress.finishing sch = true -> run nt T s sch = Ok s1 ->
+  length sch <= ExecProgress.M s
+  /\ exists sch' s', forallb ExecProgress.finishing sch' = true /\ run nt T s (sch ++ sch') = Ok s'
+                     /\ mn s' = MDone /\ timedout s' = false /\ length (sch ++ sch') <= ExecProgress.M s.
+Proof. exact ExecProgress3.every_finishing_run_extends_to_clean_end. Qed.
+Theorem C03_maximal_run_is_clean : forall nt T s sch s',
+  ExecProgress.live_net nt -> reachable nt T s -> src s = SClosed -> timedout s = false ->
+  forallb ExecProgress.finishing sch = true -> run nt T s sch = Ok s' ->
+  (forall a s'', ExecProgress.finishing a = true -> step nt T s' a <> Ok s'') ->
+  mn s' = MDone /\ timedout s' = false.
+Proof. exact ExecProgress3.maximal_run_clean. Qed.
+
+Theorem C03_every_started_table_is_live : forall cfgs,
+  forallb (fun x => Nat.ltb 0 (nworkers x)) (flatten cfgs) = true ->
+  ExecProgress.buffered_b (flatten cfgs) = true ->
+  ExecProgress.live_net (flatten cfgs).
+Proof. exact ExecProgressFlat2.flatten_live. Qed.
+
 Print Assumptions C03_no_panic.
 Print Assumptions C03_shutdown_at_most_once.
 Print Assumptions C03_shutdown_after_calls.
@@ -74,3 +113,7 @@ Print Assumptions C03_pending_targets_open.
 Print Assumptions C03_clean_end_is_drained.
 Print Assumptions C03_clean_end_exact.
 Print Assumptions C03_spec_sound.
+Print Assumptions C03_can_always_finish.
+Print Assumptions C03_every_run_ends_clean.
+Print Assumptions C03_maximal_run_is_clean.
+Print Assumptions C03_every_started_table_is_live.
